@@ -502,6 +502,7 @@ def step (s : S) (op : List String) (impl : Option (List String)) : S × String 
     let s1 := { s with kind := kind, pol := pol, tolGiven := if tol == "-" then none else pF tol, mx := (nat? mx).getD 0,
                        extra := extra, fn0 := fn0 }
     ({ s1 with opt := mkOpt s1 }, "ok", "ok")
+  | ["clone"] => (s, "ok", "ok")       -- a copy of an optimiser behaves like the original
   | ["setmax", n] =>
     match nat? n with
     | some n => ({ s with mx := n, opt := mapCore (fun c => { c with nbEvalMax := n }) s.opt }, "ok", "ok")
@@ -532,7 +533,9 @@ def step (s : S) (op : List String) (impl : Option (List String)) : S × String 
         let pl := mkParams l
         -- what the predicates need
         let names := l.map (·.1)
-        let start := s.obj (writeInto s.fpoint names (l.map (·.2.1)))
+        -- the starting point: the function's point with the values of the list written into it (the
+        -- meta-optimiser starts from the function's own point: its doInit reads the values back)
+        let start := if s.kind == "meta" then s.obj s.fpoint else s.obj (writeInto s.fpoint names (l.map (·.2.1)))
         let s0 := { s with names := names, cons := l.map (fun t => (t.1, t.2.2)), startVal := some start, curInit := none, inactive := true }
         let (s1, out) : S × String :=
           if s0.modelDead || !modelled s0.opt then (s0, "-") else answer s0 (runInit s0 pl)
